@@ -282,7 +282,7 @@ func fStep(prof FProfile) func(t *rapid.T, w *world.World) world.Action {
 			// one or several consumers, once or repeatedly per consumer, optionally after letting packets pile up
 			// and optionally followed by a step over the unbonding period (all stopped consumers due together)
 			var sched []world.Action
-			pile := prof.Remove && rapid.IntRange(0, 2).Draw(t, "pileup") == 0
+			pile := prof.Remove && rapid.IntRange(0, 1).Draw(t, "pileup") == 0
 			for _, id := range f.Order {
 				p := f.Paths[id]
 				pending := 0
@@ -295,13 +295,13 @@ func fStep(prof FProfile) func(t *rapid.T, w *world.World) world.Action {
 				if pile && open && w.P.PApp.ProviderKeeper.GetConsumerPhase(w.P.Ctx(), id) == world.PhLaunched {
 					pending += 2
 				}
-				if pending > 0 && !p.C.Halted && rapid.IntRange(0, 2).Draw(t, "tomacro") > 0 {
+				if pending > 0 && !p.C.Halted && rapid.IntRange(0, 3).Draw(t, "tomacro") > 0 {
 					sched = append(sched,
 						world.Action{Kind: world.KBlock, Chain: id, Dt: 1e9},
 						world.Action{Kind: world.KBlock, Chain: id, Dt: 1e9},
 						world.Action{Kind: world.KRelay, Consumer: id, Relay: &world.RelaySpec{Op: "timeout", Dir: "p2c", K: rapid.IntRange(1, 3).Draw(t, "tok")}},
 						world.Action{Kind: world.KBlock, Dt: 2e9})
-					if pending > 1 && rapid.Bool().Draw(t, "second-timeout") {
+					if pending > 1 && rapid.IntRange(0, 3).Draw(t, "second-timeout") > 0 {
 						sched = append(sched,
 							world.Action{Kind: world.KRelay, Consumer: id, Relay: &world.RelaySpec{Op: "timeout", Dir: "p2c", K: 2}},
 							world.Action{Kind: world.KBlock, Dt: int64(rapid.IntRange(1, 3).Draw(t, "stdt")) * 1e9})
@@ -322,7 +322,7 @@ func fStep(prof FProfile) func(t *rapid.T, w *world.World) world.Action {
 				}
 				w.Agenda = append(w.Agenda, world.Action{Kind: world.KBlock, Dt: to})
 				w.Agenda = append(w.Agenda, sched...)
-				if prof.Remove && rapid.IntRange(0, 2).Draw(t, "then-unbond") == 0 {
+				if prof.Remove && rapid.IntRange(0, 1).Draw(t, "then-unbond") == 0 {
 					ub, _ := w.P.PApp.StakingKeeper.UnbondingTime(w.P.Ctx())
 					w.Agenda = append(w.Agenda, world.Action{Kind: world.KBlock, Dt: int64(ub) + int64(rapid.IntRange(-3, 3).Draw(t, "uboff"))*1e9})
 				}
